@@ -25,8 +25,8 @@ namespace Asl
 theorem runFrom_zero (env : Env) (states : Json) (name : Str) (data ctx : Json) (retries : Nat) (st : St) :
     runFrom env 0 states name data ctx retries st = (.fuel, st) := by simp [runFrom]
 
-theorem leave_zero (env : Env) (states : Json) (name : Str) (state data ctx : Json) (retries : Nat) (st : St) :
-    leave env 0 states name state data ctx retries st = (.fuel, st) := by simp [leave]
+theorem leave_zero (env : Env) (states : Json) (name : Str) (state raw data ctx : Json) (retries : Nat) (st : St) :
+    leave env 0 states name state raw data ctx retries st = (.fuel, st) := by simp [leave]
 
 theorem handleErr_zero (env : Env) (states : Json) (name : Str) (state data ctx : Json) (retries : Nat)
     (e msg : Str) (st : St) :
@@ -104,10 +104,10 @@ theorem leave_step
       (handleErr env n states name state data ctx retries e msg st).1 ≠ Res.fuel →
       handleErr env (n + 1) states name state data ctx retries e msg st =
         handleErr env n states name state data ctx retries e msg st)
-    (name : Str) (state data ctx : Json) (retries : Nat) (st : St) :
-    (leave env (n + 1) states name state data ctx retries st).1 ≠ Res.fuel →
-    leave env (n + 1 + 1) states name state data ctx retries st =
-      leave env (n + 1) states name state data ctx retries st := by
+    (name : Str) (state raw data ctx : Json) (retries : Nat) (st : St) :
+    (leave env (n + 1) states name state raw data ctx retries st).1 ≠ Res.fuel →
+    leave env (n + 1 + 1) states name state raw data ctx retries st =
+      leave env (n + 1) states name state raw data ctx retries st := by
   simp only [leave]
   split
   · intro _; trivial
@@ -122,10 +122,10 @@ theorem joinAndLeave_step
       (handleErr env n states name state data ctx retries e msg st).1 ≠ Res.fuel →
       handleErr env (n + 1) states name state data ctx retries e msg st =
         handleErr env n states name state data ctx retries e msg st)
-    (hL : ∀ name state data ctx retries st,
-      (leave env n states name state data ctx retries st).1 ≠ Res.fuel →
-      leave env (n + 1) states name state data ctx retries st =
-        leave env n states name state data ctx retries st)
+    (hL : ∀ name state raw data ctx retries st,
+      (leave env n states name state raw data ctx retries st).1 ≠ Res.fuel →
+      leave env (n + 1) states name state raw data ctx retries st =
+        leave env n states name state raw data ctx retries st)
     (name : Str) (state data ctx : Json) (retries : Nat) (r : Except Res (List Json)) (st : St) :
     (joinAndLeave env (n + 1) states name state data ctx retries r st).1 ≠ Res.fuel →
     joinAndLeave env (n + 1 + 1) states name state data ctx retries r st =
@@ -138,7 +138,7 @@ theorem joinAndLeave_step
     · exact hH _ _ _ _ _ _ _ _
     · split
       · exact hH _ _ _ _ _ _ _ _
-      · exact hL _ _ _ _ _ _
+      · exact hL _ _ _ _ _ _ _
 
 theorem joinAfter_step
     (hJ : ∀ name state data ctx retries r st,
@@ -162,7 +162,7 @@ set_option hygiene false in
 local macro "auto_step" : tactic => `(tactic|
   repeat' (first
     | exact hH _ _ _ _ _ _ _ _
-    | exact hL _ _ _ _ _ _
+    | exact hL _ _ _ _ _ _ _
     | exact hF _ _ _ _ _
     | exact joinAfter_step env n states hJ _ _ _ _ _ _ _ (hB (by assumption) _ _ _ _)
     | exact joinAfter_step env n states hJ _ _ _ _ _ _ _ (hI (by assumption) _ _ _ _ _ _ _)
@@ -177,10 +177,10 @@ theorem runState_step (state : Json)
       (handleErr env n states name state data ctx retries e msg st).1 ≠ Res.fuel →
       handleErr env (n + 1) states name state data ctx retries e msg st =
         handleErr env n states name state data ctx retries e msg st)
-    (hL : ∀ name state data ctx retries st,
-      (leave env n states name state data ctx retries st).1 ≠ Res.fuel →
-      leave env (n + 1) states name state data ctx retries st =
-        leave env n states name state data ctx retries st)
+    (hL : ∀ name state raw data ctx retries st,
+      (leave env n states name state raw data ctx retries st).1 ≠ Res.fuel →
+      leave env (n + 1) states name state raw data ctx retries st =
+        leave env n states name state raw data ctx retries st)
     (hJ : ∀ name state data ctx retries r st,
       (joinAndLeave env n states name state data ctx retries r st).1 ≠ Res.fuel →
       joinAndLeave env (n + 1) states name state data ctx retries r st =
@@ -317,9 +317,10 @@ structure StepMono (env : Env) (n : Nat) : Prop where
   runFrom : ∀ states name data ctx retries st,
     (runFrom env n states name data ctx retries st).1 ≠ Res.fuel →
     runFrom env (n + 1) states name data ctx retries st = runFrom env n states name data ctx retries st
-  leave : ∀ states name state data ctx retries st,
-    (leave env n states name state data ctx retries st).1 ≠ Res.fuel →
-    leave env (n + 1) states name state data ctx retries st = leave env n states name state data ctx retries st
+  leave : ∀ states name state raw data ctx retries st,
+    (leave env n states name state raw data ctx retries st).1 ≠ Res.fuel →
+    leave env (n + 1) states name state raw data ctx retries st =
+      leave env n states name state raw data ctx retries st
   handleErr : ∀ states name state data ctx retries e msg st,
     (handleErr env n states name state data ctx retries e msg st).1 ≠ Res.fuel →
     handleErr env (n + 1) states name state data ctx retries e msg st =
@@ -344,7 +345,7 @@ theorem stepMono (env : Env) (n : Nat) : StepMono env n := by
   | zero =>
     constructor
     · intro states name data ctx retries st h; exact absurd (by rw [runFrom_zero]) h
-    · intro states name state data ctx retries st h; exact absurd (by rw [leave_zero]) h
+    · intro states name state raw data ctx retries st h; exact absurd (by rw [leave_zero]) h
     · intro states name state data ctx retries e msg st h; exact absurd (by rw [handleErr_zero]) h
     · intro states name state data ctx retries st h; exact absurd (by rw [runState_zero]) h
     · intro states name state data ctx retries r st h; exact absurd (by rw [joinAndLeave_zero]) h
@@ -386,12 +387,13 @@ theorem runFrom_mono (env : Env) (n m : Nat) (h : n ≤ m) (states : Json) (name
   mono_of_step (fun k => runFrom env k states name data ctx retries st) (fun x => x.1 = Res.fuel)
     (fun k => (stepMono env k).runFrom states name data ctx retries st) n m h
 
-theorem leave_mono (env : Env) (n m : Nat) (h : n ≤ m) (states : Json) (name : Str) (state data ctx : Json)
+theorem leave_mono (env : Env) (n m : Nat) (h : n ≤ m) (states : Json) (name : Str) (state raw data ctx : Json)
     (retries : Nat) (st : St) :
-    (leave env n states name state data ctx retries st).1 ≠ Res.fuel →
-    leave env m states name state data ctx retries st = leave env n states name state data ctx retries st :=
-  mono_of_step (fun k => leave env k states name state data ctx retries st) (fun x => x.1 = Res.fuel)
-    (fun k => (stepMono env k).leave states name state data ctx retries st) n m h
+    (leave env n states name state raw data ctx retries st).1 ≠ Res.fuel →
+    leave env m states name state raw data ctx retries st =
+      leave env n states name state raw data ctx retries st :=
+  mono_of_step (fun k => leave env k states name state raw data ctx retries st) (fun x => x.1 = Res.fuel)
+    (fun k => (stepMono env k).leave states name state raw data ctx retries st) n m h
 
 theorem handleErr_mono (env : Env) (n m : Nat) (h : n ≤ m) (states : Json) (name : Str) (state data ctx : Json)
     (retries : Nat) (e msg : Str) (st : St) :
